@@ -3,6 +3,18 @@
 import json, os, sys
 V = "/verif"
 CHECKS = {
+ "C01": ("exploration", "Tens of thousands of compress cases (one-shot and streaming, all levels/flush modes/wrappers/window sizes/table kinds/level-buffer sizes) under 11 simulated CPU levels through the real resolvers; every produced stream must be accepted by an independent RFC decoder and by zlib, reproduce the input and be consumed to its last byte incl. trailer; hist8k and LONGER_HUFFTABLE builds included.",
+         "trusts the independent reference inflate (cross-checked against zlib) and zlib; contexts/level_buf at malloc-grade alignment",
+         "runtime differential oracle (independent inflate + zlib) over generated inputs/parameters/CPU levels, guard-page buffers, context invariants"),
+ "C10": ("exploration", "One-shot calls with avail_out swept around the independently computed stored-block bound and tiny sizes with the output ending at a guard page; success must be a complete stream within the bound, failure must be STATELESS_OVERFLOW; streaming termination under 1..7-byte output chunks; invalid level/flush/level_buf refused before any output.",
+         "bound formula from the property text; undersized level_buf may be reported with either documented error code",
+         "runtime monitor of the output-space contract (guard pages, counters, bound oracle), bounded-progress monitor, invalid-parameter injection"),
+ "C14": ("exploration", "Event-log monitor over streaming histories with scripted flush requests: at every completed flush call the output must end 00 00 FF FF in ZSTATE_NEW_HDR and decode (reference, prefix mode) to exactly the input fed so far; every completed FULL flush suffix is decoded in isolation; one-shot FULL_FLUSH chains are concatenated and decoded.",
+         "a flush point is judged exactly where the property defines it; reference decoder trusted",
+         "offline checker over the per-call event log + independent prefix/suffix decode"),
+ "C17": ("exploration", "Instrumented reference decode of streams produced from inputs with repeats straddling the requested window: maximum match distance must stay <= 2^hist_bits and inside output+dictionary, zlib CINFO must cover it; dictionary round trips (set_dict and process+reset) through reference and zlib; wrong-state dictionary calls must fail without side effects.",
+         "reference decoder's distance accounting trusted; 8 KiB window in the hist8k/longer builds",
+         "runtime monitor on match distances via instrumented independent decoder; differential dictionary round trips; state-snapshot comparison"),
  "C03": ("exploration", "Every exported encode/dot-product variant (and the dispatchers under simulated CPU levels through the real resolvers) executed on tens of thousands of generated cases with guard-page-placed buffers and compared byte for byte with an independent shift-and-xor GF(2^8) matrix product; held on the executions listed in the evidence, nothing is claimed about cases not run.",
          "trusts the independent reference (self-tested against field axioms), the host CPU executing every variant, and ec_init_tables (decided separately by C12)",
          "runtime differential oracle + guard pages/canaries on every kernel variant"),
@@ -28,6 +40,7 @@ ENGINES = [
  ("eng_crc", "harness/eng_crc.c", ["C04", "C05"], "every CRC/Adler variant vs bitwise reference, split composition"),
  ("eng_raid", "harness/eng_raid.c", ["C08", "C05"], "xor/pq gen/check variants vs reference, corruption injection, out-of-contract arguments"),
  ("eng_mem", "harness/eng_mem.c", ["C20", "C05"], "zero detect sweep"),
+ ("eng_deflate", "harness/eng_deflate.c", ["C01", "C07", "C10", "C11", "C14", "C17", "C05"], "compression driver: one-shot/streaming with adversarial schedules, reference inflate + zlib oracles, event log, flush-point and window monitors"),
  ("eng_gfmath", "harness/eng_gfmath.c", ["C09", "C12"], "scalar GF arithmetic (exhaustive), inversion, generators, erasure patterns"),
 ]
 WIP = "check not registered yet (implementation in progress; the technique applies - see DESIGN.md section 3)"
